@@ -22,7 +22,7 @@ import os
 import re
 
 from .. import astfacts, typestate
-from ..facts import Prover, _k
+from ..facts import Prover, _k, strip_bitcasts
 from ..ir import mem_access, resolve_addr
 
 GP = 'cstl_guarded_ptr'
@@ -49,9 +49,12 @@ def gp_field(a):
 
 
 def run(m, rep, tier):
-    g1 = rep.rule('G1', 'guarded-pointer fields are touched only by the setter and the getter', floor=2)
+    g1 = rep.rule('G1', 'every read of a guarded pointer is dominated by its own self-address test; every write re-stamps the self-address', floor=10)
     nacc = 0
-    for f in m.all_plain_functions():
+    for f in m.inl.defined():
+        if not (f.file or '').endswith(('memory.c', 'memory.h', 'array.c', 'array.h')):
+            continue
+        pv = None
         bad = []
         n = 0
         for i in f.all_insts():
@@ -59,26 +62,41 @@ def run(m, rep, tier):
             if not ma:
                 continue
             fld = gp_field(ma[1])
-            if fld:
-                n += 1
-                if f.name not in ACCESSORS:
-                    bad.append('%s of cstl_guarded_ptr.%s at %s' % (ma[0], fld, i.loc()))
+            if not fld:
+                continue
+            n += 1
+            obj = _gp_object(f, i.o[0] if i.op == 'load' else i.o[1])
+            if obj is None:
+                bad.append('access to cstl_guarded_ptr.%s at %s through an address that is not a field of a guarded pointer object' % (fld, i.loc()))
+                continue
+            if pv is None:
+                pv = Prover(f)
+            if i.op == 'load' and fld == 'ptr':
+                if not _self_tested(f, pv, obj, i):
+                    bad.append('the guarded pointer is read at %s without its self-address having been tested first (a stray bitwise copy is not caught)' % i.loc())
+            elif i.op == 'store' and fld == 'ptr':
+                stamps = [s2 for s2 in f.all_insts() if s2.op == 'store' and gp_field(mem_access(s2)[1]) == 'self' and _gp_object(f, s2.o[1]) == obj
+                          and strip_bitcasts(f, s2.o[0]) == obj and (f.dominates(i, s2) or f.dominates(s2, i))]
+                if not stamps:
+                    bad.append('the guarded pointer is written at %s without re-stamping its self-address' % i.loc())
+            elif i.op == 'store' and fld == 'self':
+                if strip_bitcasts(f, i.o[0]) != obj:
+                    bad.append('the self-address is set to something other than the object\'s own address at %s' % i.loc())
         nacc += n
         if bad:
-            g1.violation(f.name, 'direct access to guarded-pointer internals outside the accessor pair: ' + '; '.join(bad),
-                         '%s:%d' % (f.file.replace(m.repo + '/', ''), f.line), {'accesses': bad})
+            g1.violation(f.name, '; '.join(sorted(set(bad))[:3]), '%s:%d' % (f.file.replace(m.repo + '/', ''), f.line), {'accesses': n})
         elif n:
-            g1.ok(f.name, '%d access(es), inside an accessor' % n)
+            g1.ok(f.name, '%d access(es), reads under the self test, writes re-stamp' % n)
 
     # ---- G2 / G3 -------------------------------------------------------------------
     g2 = rep.rule('G2', 'getter: pointer load and returns dominated by self == gp, other edge aborts', floor=1)
-    f = m.pfn('cstl_guarded_ptr_get_const')
+    f = m.ifn('cstl_guarded_ptr_get_const')
     if f is None:
         g2.undecided('cstl_guarded_ptr_get_const', 'function not found in the model')
     else:
         check_getter(m, f, g2)
     g3 = rep.rule('G3', 'setter: every path stores gp into self and the argument into ptr', floor=1)
-    f = m.pfn('cstl_guarded_ptr_set')
+    f = m.ifn('cstl_guarded_ptr_set')
     if f is None:
         g3.undecided('cstl_guarded_ptr_set', 'function not found in the model')
     else:
@@ -129,6 +147,32 @@ def run(m, rep, tier):
                     g5.ok(site, '%s of %s' % (cal, [(_orig_pointee(f, o) or '?') for o in c.o[:nptr]]), c.loc())
     rep.assumptions += ['user code is outside the model: only library functions are checked for bitwise copies']
     rep.extra['guarded_field_accesses'] = nacc
+
+
+def _gp_object(f, addr_ref):
+    """the pointer to the struct cstl_guarded_ptr whose field `addr_ref` addresses (un-cast), else None"""
+    i = f.get(addr_ref) if isinstance(addr_ref, str) else None
+    for _ in range(4):
+        if i is None:
+            return None
+        if i.op == 'bitcast':
+            i = f.get(i.o[0])
+            continue
+        if i.op == 'getelementptr' and i.x.get('path') and i.x['path'][-1].get('s') == GP and len(i.x['path']) == 1:
+            return strip_bitcasts(f, i.o[0])
+        return None
+    return None
+
+
+def _self_tested(f, pv, obj, at_ins):
+    for (op, x, y) in pv.facts_at(at_ins):
+        if op != 'eq':
+            continue
+        for p_, q_ in ((x, y), (y, x)):
+            pi = f.get(p_)
+            if pi is not None and pi.op == 'load' and gp_field(mem_access(pi)[1]) == 'self' and _gp_object(f, pi.o[0]) == obj and strip_bitcasts(f, q_) == obj:
+                return True
+    return False
 
 
 def _containment(mod):
